@@ -284,7 +284,7 @@ def validate_witnesses(sx, ir, label="", timeout_s=120):
         s.add(sx.asserts)
         n_eq = 0
         for c, t in sx.terms.items():
-            if c in sx.collapsed or c not in vals:
+            if c in sx.collapsed or c in sx.elim_classes or c not in vals:
                 continue
             if t.k == "c":
                 if t.v != vals[c]:
@@ -355,7 +355,7 @@ def model_all_classes(sx, model):
     out = {}
     cache = {}
     for c, t in sx.terms.items():
-        if c in sx.collapsed:
+        if c in sx.collapsed or c in sx.elim_classes:
             continue
         e = t.as_int()
         if depends_on_uf(e, cache):
